@@ -150,8 +150,20 @@ def check_path(run, rs, ctx, args, p, tag):
     for i in (rows if computes else []):
         for cname, c in row_polys(rs, L, i, honest):
             c = xe.subst(ctx, [c], sub)[0]
-            o = run.identity(f"{tag}/honest/r{i}/{cname}", c, ctx.const(0),
-                             replay=replay_honest(run, args, L))
+            # the path condition (e.g. q_O != 0, != 1, != -1) is an assumption of the identity
+            proots = []
+            pconds = []
+            for a_, b_, eq_, forced_ in p.conds:
+                d_ = xe.subst(ctx, [a_ - b_], sub)[0]
+                if smt.has_inv([d_]):
+                    continue
+                if d_.op == "c":
+                    continue
+                proots.append(d_)
+                atom = f"(= (mod {smt.ref(d_)} {R}) 0)"
+                pconds.append(atom if eq_ else f"(not {atom})")
+            o = run.identity(f"{tag}/honest/r{i}/{cname}", c, ctx.const(0), assumptions=pconds,
+                             extra_roots=proots, replay=replay_honest(run, args, L))
             # path conditions are only needed when an inverse occurs; fractions
             # were cleared by cross-multiplication, so no assumption is required
     # ---- emit: emitted polynomial == documented relation
